@@ -3,7 +3,8 @@
 Tie: T - on every run driver/translate/c10_depth.py re-reads from the working tree (a) the junction chain, every
 `_*_contour_line` method, the `np.piecewise` table of `local_depth` and the statement list of `_enumerate_contour_points`
 of `GenericElongationGroove`, (b) `Roll.contour_points / surface_x / surface_z / surface_y`, the axes handed to `interpn`
-in `Roll.surface_interpolation`, (c) the centring / half-width / width / usable-width / depth terms, the step order of
+in `Roll.surface_interpolation`, (c) the face test (`np.isclose(y, 0)` or `np.abs(y) <= <tolerance term>`, whichever the
+source has; `FaceTest` of the model), the centring / half-width / width / usable-width / depth terms, the step order of
 `SplineGroove.__init__` and what each step does to the identity of the vertex array (`ArrOp`: asarray / view / copy /
 in-place write / store), (d) `SymmetricRollPass.entry_point` into lean/PyrollModel/Gen/C10.lean; the theorems of
 lean/PyrollProps/C10.lean are about these generated tables run by the hand-written model lean/PyrollModel/GrooveRep.lean.
@@ -11,7 +12,7 @@ K - the Float run of the model is compared with the real objects: junction chain
 groove's attributes/methods, the model's contour polyline against `groove.contour_points` vertex by vertex, the model's
 depth function against `groove.local_depth` on 50 abscissae (junctions +- 1 ulp), `surface_x`, grid nodes and (bi)linear
 interpolation against the real roll (whichever way its radius was given; `min_radius` / `max_radius` through the translated
-hooks), the spline model (stripping, centring, width, usable width, depth, interp1; whether the groove's array shares
+hooks), the spline model (face test on ordinates around its tolerance, stripping, centring, width, usable width, depth, interp1; whether the groove's array shares
 memory with the caller's and whether the constructor wrote into it) against real `SplineGroove`s built from lists, tuples,
 float64 arrays and views, the closed formulas against the python functions on stubs.
 The independent oracle checks the property text on the real objects (see `_oracle_*`).
@@ -40,7 +41,9 @@ RULE = ("(a) grooves of every parametric class (20 classes, feasible catalogue p
         "(all segments / left flank only / one segment only / face runs, parameter uniform or clustered at a vertex), handed over "
         "as list / tuple / float64 ndarray / non-contiguous float64 view; in half of the cases the caller goes on using its "
         "container (1..5 operations: rescale ordinates or everything, shift, mirror the ordinates, build the next family member "
-        "from it, zero it) and every groove built so far is looked at again afterwards. "
+        "from it, zero it) and every groove built so far is looked at again afterwards; (d) correspondence only: polylines "
+        "with end ordinates / ordinates next to the face runs 0.25 .. 40 x the tolerance a face test may have (1e-8 absolute, "
+        "1e-9 x extent), contours of 1e-3 .. 3000 length units: the translated face test accepts / strips like the constructor. "
         "non-trivial = pad angle != 0, a changed sample count, a contact length, a radius not given as nominal_radius, a "
         "refinement, or a reuse sequence; distinct by rounded inputs.")
 ASSUMPTIONS = [
@@ -48,7 +51,7 @@ ASSUMPTIONS = [
     "(tensor product of two 1-D interpolations); the model is compared with scipy on every generated roll / spline (rtol 1e-9)",
     "IEEE rounding: theorems are over the reals; 'lies on', 'reproduces', 'symmetric' are checked on floats with a tolerance of "
     "1e-8 x the size of the object (rounding of a dozen operations; the defects found are >= 1e-3 x size)",
-    "np.linspace, np.piecewise (last true condition wins, extra function = default), np.isclose, np.roll, np.mean/min/max are "
+    "np.linspace, np.piecewise (last true condition wins, extra function = default), np.isclose, np.roll, np.mean/min/max/ptp are "
     "modelled by hand in PyrollModel/GrooveRep.lean and validated by the correspondence",
     "Params (radii >= 0, arcs graphs over z, flank closes at z4) and Ordered (z7 <= z6 <= ... <= z0) are hypotheses of the groove "
     "theorems; they are checked on every generated generic groove (closure is what the constructors' solvers establish - C04)",
@@ -850,6 +853,50 @@ def _batch_spline(batch, sdesc, g, queries):
                   dict(what="spline local_depth", real=d, args=queries, tol=1e-9 * S, replay={"spline": sdesc}))
 
 
+def _face_test_cases(ctx, batch, n):
+    """(K only) the face test the translator read (`spline_face`: np.isclose(y, 0) or |y| <= tolerance term) against the real
+    constructor: polylines whose end ordinates / ordinates next to the face runs lie just below and just above the two
+    tolerances a face test may have (1e-8 absolute, 1e-9 x extent), for contours much smaller and much larger than 10
+    length units (where the two coincide).  The model must accept / reject the same polylines and strip the same vertices.
+    No oracle clause: whether such a vertex belongs to the groove shape is not for C10 to say (C11, finding 2)."""
+    import numpy as np
+    import pyroll.core as pc
+    rng = ctx.rng
+    for i in range(n):
+        s = 10 ** (rng.uniform(-3, -1) if i % 2 == 0 else rng.uniform(2, 3.5))
+        w, d = s * rng.uniform(10, 80), s * rng.uniform(2, 40)
+        m = rng.randrange(2, 7)
+        xs = sorted(rng.uniform(-0.45, 0.45) * w for _ in range(m))
+        inner = [[x, d * rng.uniform(0.2, 1)] for x in xs]
+        pl, pr = w * rng.uniform(0.05, 0.3), w * rng.uniform(0.05, 0.3)
+        pts = [[-w / 2 - pl, 0.0], [-w / 2 - pl / 2, 0.0], [-w / 2, 0.0]] + inner + [[w / 2, 0.0], [w / 2 + pr / 2, 0.0],
+                                                                                       [w / 2 + pr, 0.0]]
+        extent = max(w + pl + pr, max(p[1] for p in pts))
+        base = rng.choice([1e-8, 1e-9 * extent])
+        where = rng.choice(["end", "both-ends", "next-to-run", "run", "first-inner"])
+        idx = {"end": [rng.choice([0, len(pts) - 1])], "both-ends": [0, len(pts) - 1],
+               "next-to-run": [rng.choice([2, len(pts) - 3])], "run": [1, 2, len(pts) - 2],
+               "first-inner": [rng.choice([3, len(pts) - 4])]}[where]
+        for k in idx:
+            pts[k][1] = base * rng.choice([0.25, 0.9, 0.999, 1.001, 1.1, 4.0, 40.0]) * rng.choice([1.0, 1.0, -1.0])
+        sdesc = {"points": pts, "mode": "face-test:" + where}
+        ends_rejected, g = False, None
+        try:
+            with warnings.catch_warnings():
+                warnings.simplefilter("ignore")
+                g = pc.SplineGroove(np.array(pts, dtype=float), classifiers=("spline",))
+        except ValueError as ex:
+            ends_rejected = "first and last element" in str(ex)
+            if not ends_rejected and not _in_pyroll(ex):
+                raise
+        except Exception as ex:
+            if not _in_pyroll(ex):
+                raise
+        ctx.count("face-test:" + where + (":rejected" if ends_rejected else ":accepted" if g is not None else ":failed-later"))
+        line = "spline _ " + " ".join(f"{bits(a)} {bits(b)}" for a, b in pts)
+        batch.add(line, "splineface", dict(real=g, ends_rejected=ends_rejected, tol=1e-9 * (w + d), replay={"spline": sdesc}))
+
+
 def _run_batch(ctx, batch):
     import numpy as np
     if not batch.lines:
@@ -905,6 +952,23 @@ def _run_batch(ctx, batch):
                 if m != p["real"]:
                     ctx.disagreement("spline vertex array ownership (groove's array is the caller's, constructor wrote into the "
                                      f"caller's container): model {m!r}, implementation {p['real']!r}", p["replay"])
+                else:
+                    ctx.validated()
+            elif kind == "splineface":
+                g = p["real"]
+                if (o == "rejected") != p["ends_rejected"]:
+                    ctx.disagreement("spline face test: the model " + ("rejects" if o == "rejected" else "accepts") +
+                                     " the end ordinates, the implementation " +
+                                     ("rejects them" if p["ends_rejected"] else "accepts them"), p["replay"])
+                    continue
+                if o == "rejected" or g is None:
+                    ctx.validated()
+                    continue
+                m = np.array(floats(o.split("|")[1]), dtype=float).reshape(-1, 2)
+                cp = np.asarray(g.contour_points, dtype=float)
+                if m.shape != cp.shape or not np.all(np.abs(m - cp) <= p["tol"]):
+                    ctx.disagreement(f"spline face test: the model strips to {len(m)} vertices {m.tolist()!r}, the "
+                                     f"implementation to {len(cp)}: {cp.tolist()!r}", p["replay"])
                 else:
                     ctx.validated()
             elif kind == "spline":
@@ -1168,6 +1232,7 @@ def run(ctx):
             sdesc["reuse"] = _random_reuse(rng, sdesc["scale"])
         _spline_case(ctx, sdesc, batch, with_model and i < ctx.budget(80, 800))
     if with_model:
+        _face_test_cases(ctx, batch, ctx.budget(60, 600))
         _batch_formulas(ctx, batch, ctx.c10_info)
         _run_batch(ctx, batch)
     else:
